@@ -68,7 +68,7 @@ def gen(seed, tier):
         segs = []
         for _ in range(r.randint(2, 8)):
             segs.append(seg(0, [zero_frame() if r.random() < 0.5 else g.any_frame(r.choice(pool))]))
-        cases.append(H("C03-z%d" % i, o, segs))
+        cases.append(H("C03-y%d" % i, o, segs))
     return cases
 
 
@@ -117,7 +117,7 @@ def oracle(parts, outcome, obs):
 
 
 CLAIM = {
-    "text": "Theorems C03_isolation / C03_one_row_per_address / C03_zero_address_dropped (Coq, closed): for every state and line, an applied line leaves every other row exactly as it was (rows only vanish through the expiry sweep) and introduces no key but its own address; the table reachable by any history has one row per address; a zero address is never applied. Address recovery (AA field / AP xor CRC-24) is tied to an independent polynomial-division CRC on the complete single-bit basis of payload x address for all nine formats plus random frames; its Coq theorem (CRC model = long division for all payloads) is added to Properties/C03.v when the CRC proofs are integrated.",
+    "text": "Theorems C03_isolation / C03_one_row_per_address / C03_zero_address_dropped (Coq, closed): for every state and line, an applied line leaves every other row exactly as it was (rows only vanish through the expiry sweep) and introduces no key but its own address; the table reachable by any history has one row per address; a zero address is never applied; OVER ALL HISTORIES every row of every reachable table shows exactly the address it is filed under, which is non-zero and below 2^24 (C03_row_identity_step / _run / _timed / _reachable). Address recovery (AA field / AP xor CRC-24) is tied to an independent polynomial-division CRC on the complete single-bit basis of payload x address for all nine formats plus random frames; C03_address states the recovery rule on the frame's bits (AA field / AP xor CRC-24, the CRC being proved equal to polynomial long division in C04).",
     "note": "HashMap is modelled as an association list; only order-independent observations are made.",
     "technique": "Coq proof by induction over histories (isolation, NoDup invariant) + differential runs with independent CRC oracle",
 }
